@@ -324,6 +324,26 @@ def dup_count_before(stream, x):
   return k
 
 
+TIMING_CLAUSES = ("begin_frame", "end_frame", "before_first_line", "begin_exact_frame", "end_exact_frame")
+
+
+def single_edm_frames(stream):
+  """Frames during which a channel-1 EDM is transmitted that is neither followed nor preceded by its copy."""
+  seq = []
+  for fr, ws in stream["lines"]:
+    for j, w in enumerate(ws):
+      seq.append((fr + j, w & 0x7F7F))
+  out = set()
+  for n, (fr, w) in enumerate(seq):
+    if w != 0x142C:
+      continue
+    nxt = n + 1 < len(seq) and seq[n + 1] == (fr + 1, w)
+    prv = n > 0 and seq[n - 1] == (fr - 1, w)
+    if not nxt and not prv:
+      out.add(fr)
+  return out
+
+
 def stream_case(stream, aux, fails):
   return {"scc": aux["text"], "text_align": stream["align"], "df": stream["df"],
           "paragraphs": [{"id": p["id"], "begin_frames": p["b"], "end_frames": p["e"], "style": p["style"],
@@ -432,7 +452,14 @@ def run(ctx):
   ctx.count("records_failing", len(fails))
 
   # ---- 4. diagnosis of failing records -------------------------------------------------------------
-  # hypothesis "duplicate clock": the same words at the same frames, with a new SCC line after every suppressed duplicate
+  # Every failing (frame, clause) gets a cause label, computed from facts about the INPUT (never from the verdict):
+  #  * "suppressed_duplicate_clock": the failure disappears when the same words are sent at the same frames with a new
+  #    SCC line after every suppressed duplicate (for the decoder: the same behaviour, NewLine at the current frame), and
+  #    every paragraph time of the original run is earlier than in that run by exactly k = the number of suppressed
+  #    duplicates earlier on the same SCC line;
+  #  * "single_edm_one_frame_late": the failing frame directly follows an EDM that is not doubled (screen clauses), or is
+  #    the second frame after it (end_frame);
+  #  * "other".
   variants = []
   vmap = {}
   for rid in fails:
@@ -449,13 +476,14 @@ def run(ctx):
 
   for rid, fl in sorted(fails.items()):
     s, a = aux[rid]
-    feats = {"source": s["source"], "style": s["style"]}
-    dup_only = False
+    shift_is_k = False
     kmax = 0
-    if rid in vmap and vmap[rid][0] not in vfails:
-      va = vmap[rid][1]
+    vset = None
+    if rid in vmap:
+      vid, va = vmap[rid]
+      vset = set(vfails.get(vid, []))
       if len(va["pars"]) == len(a["pars"]):
-        dup_only = True
+        shift_is_k = True
         for p, q in zip(a["pars"], va["pars"]):
           for key in ("b", "e"):
             if q[key][0] < 0 or p[key][0] < 0:
@@ -466,17 +494,24 @@ def run(ctx):
               k = dup_count_before(s, exp)
               ok = q[key][1] == 1 and p[key][1] == 1 and exp - p[key][0] == k
             kmax = max(kmax, k)
-            dup_only = dup_only and ok
-    feats["early_by_suppressed_duplicates_only"] = dup_only
-    feats["k_max"] = kmax
-    clauses = {}
+            shift_is_k = shift_is_k and ok
+    single_edm = single_edm_frames(s)
+    groups = {}
     for fr, clause in fl:
-      clauses.setdefault(clause, []).append(fr)
-    for clause, frs in sorted(clauses.items()):
-      f2 = dict(feats)
-      f2["frames_failing"] = len(frs)
-      ctx.violation(clause, stream_case(s, a, fl), f2,
-                    f"{s['source']}/{s['style']}: clause {clause} at frame(s) {sorted(frs)[:5]} (first line at {s['lines'][0][0]})")
+      if vset is not None and (fr, clause) not in vset:
+        cause = "suppressed_duplicate_clock"
+      elif (clause == "end_frame" and fr - 2 in single_edm) or (clause not in TIMING_CLAUSES and fr - 1 in single_edm):
+        cause = "single_edm_one_frame_late"
+      else:
+        cause = "other"
+      groups.setdefault((clause, cause), []).append(fr)
+    for (clause, cause), frs in sorted(groups.items()):
+      feats = {"source": s["source"], "style": s["style"], "cause": cause, "frames_failing": len(frs)}
+      if cause == "suppressed_duplicate_clock":
+        feats["every_time_early_by_k"] = shift_is_k
+        feats["k_max"] = kmax
+      ctx.violation(clause, stream_case(s, a, fl), feats,
+                    f"{s['source']}/{s['style']}: clause {clause} ({cause}) at frame(s) {sorted(frs)[:5]} (first line at {s['lines'][0][0]})")
   ok_recs = [r for r in recs if r["id"] not in fails and r["id"] not in skips]
   if ok_recs:
     s, a = aux[ok_recs[0]["id"]]
